@@ -15,6 +15,8 @@ B = "grin_chain::store::Batch::"
 
 
 def run(c):
+    import r9
+    c.r9("C16")
     # --- segments are cached only after validation against the archive header
     c.r1("bitmap-validated", D + "add_bitmap_segment", S + "Segment::validate_with", sink=D + "cache_bitmap_segment", via=2)
     c.r2_arg("bitmap-root", D + "add_bitmap_segment", S + "Segment::validate_with", 3, must=["arg0.archive_header.output_root"])
